@@ -632,6 +632,8 @@ int cp_rsa_gen(rsa_t pub, rsa_t prv, size_t bits) {
 			bn_add_dig(prv->crt->p, prv->crt->p, 1);
 			bn_add_dig(prv->crt->q, prv->crt->q, 1);
 			result = RLC_OK;
+		} else {
+			result = RLC_ERR;
 		}
 #else
 		/* d = e^(-1) mod phi(n). */
@@ -652,6 +654,8 @@ int cp_rsa_gen(rsa_t pub, rsa_t prv, size_t bits) {
 			bn_mod_inv(prv->crt->qi, prv->crt->q, prv->crt->p);
 
 			result = RLC_OK;
+		} else {
+			result = RLC_ERR;
 		}
 #endif /* CP_CRT */
 	}
